@@ -691,6 +691,28 @@ class _Dev:
 _HWS = {}
 
 
+# hardware models that share a vendor (one rulebook) but not their implicit rules; with the device tags the rules read
+IMPLICIT_MODELS = {
+    "nexus": ["Cisco Nexus 9508", "Cisco Nexus 9508", "Cisco Nexus 9336", "Cisco Nexus 3132", "Cisco Nexus 3432"],
+    "huawei": ["Huawei CE6870", "Huawei NE40E", "Huawei S5300"],
+    "cisco": ["Cisco Catalyst 2960", "Cisco Catalyst 3650", "Cisco 7600"],
+    "arista": ["Arista DCS-7280"],
+}
+IMPLICIT_TAGS = [[], ["spine1"], ["spine1", "x"], ["leaf"]]
+
+
+def _hw_model(model):
+    key = "model:" + model
+    if key not in _HWS:
+        from annet.annlib.netdev.views.hardware import HardwareView
+        _HWS[key] = HardwareView(model, None)
+    return _HWS[key]
+
+
+def _dump_irules(rules):
+    return [[row, r["type"], _dump_irules(r["children"])] for row, r in rules.items()]
+
+
 def _hw_stub(vendor):
     # one HardwareView per vendor, as a worker that serves many devices of one model sees it
     if vendor not in _HWS:
@@ -754,6 +776,8 @@ def _job_env(job):
         hw = rbgen.Hw(job["vendor"])
         hw.tag = "c20"
         _PROV.table[hw.vendor + "|" + hw.tag] = rbgen.compile_rb(job["ptext"], job["otext"], job["vendor"])
+    elif job.get("implicit"):
+        hw = _hw_model(job["implicit"]["model"])
     else:
         hw = _hw_stub(job["vendor"])
     rb = rulebook.get_rulebook(hw)
@@ -781,6 +805,20 @@ def run_job(job, validate=False):
     old, new = rbgen.to_odict(job["old"]), rbgen.to_odict(job["new"])
     res = {}
     modified = []
+    if job.get("implicit"):
+        # what gen._old_new_per_device does before the trees reach _diff_and_patch (gen.py:201-205): both are completed
+        # with the implicit rules of THIS device (hardware model and tags)
+        try:
+            from annet import implicit
+            from annet.annlib.lib import merge_dicts
+            dev = _Dev(hw)
+            dev.tags = list(job["implicit"]["tags"])
+            irules = implicit.compile_rules(dev)
+            old = merge_dicts(old, implicit.config(old, irules))
+            new = merge_dicts(new, implicit.config(new, irules))
+            res["implicit"] = {"rules": _dump_irules(irules), "old": rbgen.to_list(old), "new": rbgen.to_list(new)}
+        except Exception as e:  # noqa
+            res["implicit"] = _exc(e)
 
     def guarded(what, fn):
         if validate:
@@ -1054,7 +1092,30 @@ def gen_hist_job(rng, allow_gen=True):
         job["acl"] = acl_for(rng, [job["old"], job["new"]])
     job["add_comments"] = rng.random() < 0.3
     job["do_commit"] = rng.random() < 0.85
+    if job["src"] == "corpus" and job["vendor"] in IMPLICIT_MODELS and rng.random() < 0.35:
+        job["implicit"] = dict(model=rng.choice(IMPLICIT_MODELS[job["vendor"]]), tags=rng.choice(IMPLICIT_TAGS))
     return job
+
+
+def gen_fleet(rng):
+    """devices of one vendor served by one worker: the same rulebook, hardware models and tags that differ — what the
+    implicit rules (gen.py:201-205) depend on"""
+    cs = corpus()
+    vendor = rng.choice(["nexus", "nexus", "huawei", "cisco", "arista"])
+    same = [c for c in cs if c[1] == vendor]
+    jobs = []
+    for _ in range(rng.randint(3, 7)):
+        a, b = rng.choice(same), rng.choice(same)
+        old, new = a[rng.choice([2, 3])], b[rng.choice([2, 3])]
+        if rng.random() < 0.4:
+            new = [x for x in new if rng.random() < 0.8]
+        job = dict(src="corpus", name="fleet:%s|%s" % (a[0], b[0]), vendor=vendor, old=old, new=new,
+                   add_comments=False, do_commit=True,
+                   implicit=dict(model=rng.choice(IMPLICIT_MODELS[vendor]), tags=rng.choice(IMPLICIT_TAGS)))
+        if rng.random() < 0.2:
+            job["acl"] = acl_for(rng, [old, new])
+        jobs.append(job)
+    return jobs
 
 
 _MUT_SPECS = [
@@ -1239,7 +1300,10 @@ def gen(desc):
         elif kind == "acl":
             yield gen_acl(rng)
         else:
-            jobs = share_acls(rng, [gen_hist_job(rng) for _ in range(rng.randint(3, 8))])
+            if rng.random() < 0.3:
+                jobs = gen_fleet(rng)
+            else:
+                jobs = share_acls(rng, [gen_hist_job(rng) for _ in range(rng.randint(3, 8))])
             if rng.random() < 0.5:
                 jobs.append(copy.deepcopy(rng.choice(jobs)))          # a repeated job
             yield dict(kind="hist", jobs=jobs, fresh="fork")
@@ -1726,6 +1790,11 @@ def stats(case, r):
         for j in case["jobs"]:
             lab.append("job-src=" + j["src"] + ("+acl" if j.get("acl") else ""))
             lab.append("job-vendor=" + j["vendor"])
+            if j.get("implicit"):
+                lab.append("job-implicit=%s%s" % (j["implicit"]["model"], "+" + ",".join(j["implicit"]["tags"]) if j["implicit"]["tags"] else ""))
+        ims = [(j["implicit"]["model"], tuple(j["implicit"]["tags"])) for j in case["jobs"] if j.get("implicit")]
+        if any(a[0] == b[0] and a[1] != b[1] for a in ims for b in ims):
+            lab.append("hist-same-model-different-tags")
         lab.append("observed-writers=%d" % len({w[0] for w in full["observed"]}))
     return lab
 
